@@ -78,7 +78,7 @@ def c15_struct(tier="quick", seed=0):
     allowed = {("vm", "run", "time.monotonic"), ("vm", "_check_limits", "time.monotonic"), ("vm", "check_timeout", "time.monotonic"), ("vm", "<lambda>", "time.monotonic"),
                ("context", "check_timeout", "time.monotonic"), ("context", "random_fn", "random.random"), ("context", "now_fn", "time.time"),
                ("context", "_call_function", "time.monotonic"), ("vm", "match", "time.monotonic"), ("vm", "search", "time.monotonic"),
-               ("values", "convert", "id"), ("context", "_to_python", "id"), ("context", "_to_js", "id"),      # (memo tables of one conversion)
+               ("values", "convert", "id"), ("context", "_to_python", "id"), ("context", "_to_js", "id"), ("vm", "_adopt", "id"),      # (memo tables / visited sets of one conversion)
                ("context", "_nested_vm", "time.monotonic"), ("vm", "_arm_regex", "time.monotonic")}                # (deadline checks)
     bad = [h for h in hidden if h not in allowed]
     out.append(ob("C15.struct.hidden-inputs", not bad, "K3", f"clock/random/identity reads: {sorted(set(hidden))}; not on the allow-list: {bad}"))
